@@ -2,6 +2,7 @@
 # regress_seeded.sh [ids...] : run, for every seeded change, the quick tier of the
 # checks named in its meta.json (caught_by) against a private copy of /verif and a
 # scratch worktree of /repo, so that neither /repo nor /verif is disturbed.
+# FIRST_ONLY=1: only the first check named for each change.
 set -u
 V=/tmp/vreg; R=/tmp/vreg-repo
 rm -rf $V; mkdir -p $V
@@ -19,7 +20,7 @@ cs=[]
 for c in m['caught_by_quick_checks']:
     for x in re.findall(r'C\d\d', c.split('(')[0]):
         if x not in cs: cs.append(x)
-print(' '.join(cs))")
+print(' '.join(cs[:1] if '${FIRST_ONLY:-}' else cs))")
   git -C $R apply /verif/seeded/$id/patch.diff || { echo "$id PATCH-FAILED"; continue; }
   line="$id:"
   for c in $checks; do
